@@ -210,6 +210,40 @@ impl<'t, 'a> G<'t, 'a> {
             .collect()
     }
 
+    fn compact_params(&self, cur: usize) -> Vec<usize> {
+        self.headers[cur]
+            .params
+            .iter()
+            .enumerate()
+            .filter(|(_, p)| p.compactable)
+            .map(|(i, _)| i)
+            .collect()
+    }
+
+    /// an argument for a `T: HasCompact` parameter position
+    fn compactable_arg(&mut self, c: Ctx) -> Ty {
+        let mine = self.compact_params(c.cur);
+        if !c.closed && !c.root_args && !mine.is_empty() && self.t.chance(180) {
+            return Ty::Param(mine[self.t.choose(mine.len())]);
+        }
+        if !self.wrappers.is_empty() && self.t.chance(80) {
+            let w: Vec<usize> = self.wrappers.iter().copied().filter(|w| *w < c.cur || c.root_args).collect();
+            if !w.is_empty() {
+                return Ty::Def(w[self.t.choose(w.len())], vec![]);
+            }
+        }
+        // an unsigned integer, from the reserved argument primitives if possible
+        let pool: Vec<Prim> = self.arg_prims.iter().copied().filter(|p| p.is_uint()).collect();
+        if !pool.is_empty() {
+            return Ty::Prim(pool[self.t.choose(pool.len())]);
+        }
+        let others: Vec<Prim> = Prim::UINTS.iter().copied().filter(|p| !self.body_prims.contains(p)).collect();
+        if !others.is_empty() {
+            return Ty::Prim(others[self.t.choose(others.len())]);
+        }
+        Ty::Prim(Prim::UINTS[self.t.choose(5)])
+    }
+
     fn config_params(&self, cur: usize) -> Vec<usize> {
         self.headers[cur]
             .params
@@ -234,6 +268,9 @@ impl<'t, 'a> G<'t, 'a> {
                     let k = self.config_defs[self.t.choose(self.config_defs.len())];
                     out.push(Ty::Def(k, vec![]));
                 }
+            } else if self.headers[d].params[i].compactable {
+                let a = self.compactable_arg(c);
+                out.push(a);
             } else {
                 let cc = Ctx {
                     in_args: true,
@@ -369,6 +406,11 @@ impl<'t, 'a> G<'t, 'a> {
             if self.headers[d].params[i].config {
                 let k = self.config_defs[self.t.choose(self.config_defs.len())];
                 out.push(Ty::Def(k, vec![]));
+                continue;
+            }
+            if self.headers[d].params[i].compactable {
+                let a = self.compactable_arg(Ctx { closed: true, ..c });
+                out.push(a);
                 continue;
             }
             let mut tries = 0;
@@ -518,7 +560,11 @@ impl<'t, 'a> G<'t, 'a> {
             }
             9 => {
                 self.labels.insert("compact_type");
-                if !self.wrappers.is_empty() && self.t.chance(70) {
+                let cps = if c.closed { vec![] } else { self.compact_params(c.cur) };
+                if !cps.is_empty() && self.t.chance(150) {
+                    self.labels.insert("compact_type_over_parameter");
+                    Ty::Compact(Box::new(Ty::Param(cps[self.t.choose(cps.len())])))
+                } else if !self.wrappers.is_empty() && self.t.chance(70) {
                     self.labels.insert("compact_wrapper");
                     let w = self.wrappers[self.t.choose(self.wrappers.len())];
                     Ty::Compact(Box::new(Ty::Def(w, vec![])))
@@ -580,7 +626,11 @@ impl<'t, 'a> G<'t, 'a> {
             } else if self.o.compact && self.t.chance(30) {
                 self.labels.insert("compact_attr");
                 compact_attr = true;
-                if !self.wrappers.is_empty() && self.t.chance(60) {
+                let cps = self.compact_params(cur);
+                if !cps.is_empty() && self.t.chance(170) {
+                    self.labels.insert("compact_attr_on_parameter");
+                    Ty::Param(cps[self.t.choose(cps.len())])
+                } else if !self.wrappers.is_empty() && self.t.chance(60) {
                     self.labels.insert("compact_wrapper");
                     let w = self.wrappers[self.t.choose(self.wrappers.len())];
                     Ty::Def(w, vec![])
@@ -771,10 +821,16 @@ pub fn gen_program(t: &mut Tape, o: &GenOpts) -> Generated {
             if skipped {
                 g.labels.insert("skipped_param");
             }
+            // `T: HasCompact` parameters (e.g. `Balance`): used as `#[codec(compact)] f: T` / `Compact<T>`
+            let compactable = !config && !skipped && o.compact && g.t.chance(50);
+            if compactable {
+                g.labels.insert("compactable_param");
+            }
             params.push(ParamDecl {
                 name: PARAM_NAMES[i].to_string(),
                 skipped,
                 config,
+                compactable,
             });
         }
         g.headers.push(Header {
@@ -851,6 +907,22 @@ pub fn gen_program(t: &mut Tape, o: &GenOpts) -> Generated {
                 if p.config {
                     let k = g.config_defs[g.t.choose(g.config_defs.len())];
                     args.push(Ty::Def(k, vec![]));
+                } else if p.compactable {
+                    let c = Ctx {
+                        cur: i,
+                        heap: false,
+                        depth: 1,
+                        in_args: true,
+                        closed: true,
+                        root_args: true,
+                    };
+                    let mut a = g.compactable_arg(c);
+                    let mut k = 0;
+                    while args.contains(&a) && k < 6 {
+                        a = g.compactable_arg(c);
+                        k += 1;
+                    }
+                    args.push(a);
                 } else {
                     let a = match g.t.weighted(&[6, 1, 1, 2]) {
                         0 => Ty::Prim(g.prim(true)),
